@@ -1,28 +1,15 @@
-//! verif-harness — runs the real library (path dependencies on /repo's working tree) on the
-//! cases of the correspondence protocol and prints one canonical observation line per case.
-//!
-//! stdin:  `<cmd> <hex> <hex> ...` per line ("-" = empty byte string)
-//! stdout: one line per case, the same canonical text the extracted model prints.
-use std::io::{BufRead, Write};
-
-mod util;
-mod dt;
-mod tree;
+//! shared pieces of the correspondence harness: hex I/O, the line-protocol main loop,
+//! canonical printers.  Each binary under src/bin/ serves one family of observations.
+pub mod dt;
+pub mod tree;
+pub mod util;
 
 pub type Args = Vec<Vec<u8>>;
 
-fn run_cmd(cmd: &str, args: &Args) -> String {
-    match cmd {
-        "dt" => dt::cmd_dt(args),
-        "dtp" => dt::cmd_dtp(args),
-        "doc" => tree::cmd_doc(args),
-        "val" => tree::cmd_val(args),
-        _ => "unknown-command".to_string(),
-    }
-}
-
-fn main() {
-    // panics are observations, not crashes: keep the default hook quiet
+/// the protocol loop: one case per stdin line, one observation line per case; a panic in
+/// the library is reported as `PANIC <hex of message>`.
+pub fn main_loop(run_cmd: fn(&str, &Args) -> String) {
+    use std::io::{BufRead, Write};
     std::panic::set_hook(Box::new(|_| {}));
     let stdin = std::io::stdin();
     let stdout = std::io::stdout();
